@@ -17,4 +17,6 @@ Inv == /\ (R.kind \in {"group", "debug"} => \A i \in 1..Len(R.outs) : R.outs[i][
        \* output sent where it cannot be read back (-o /dev/null): the same success, nothing on stdout
        /\ (R.kind = "group" => \A i \in 1..Len(R.sinks) : /\ R.sinks[i][4] /\ R.sinks[i][2] = 0
                                                             /\ (R.outs # <<>> => R.sinks[i][1] = R.outs[1][1]))
+\* ... and where the output device refuses every write (/dev/full), -o and standard output have the same outcome
+FullInv == R.kind = "group" => /\ R.full[3] /\ R.full[4] /\ R.full[1] = R.full[2]
 =============================================================================
